@@ -142,3 +142,17 @@ fn c17_execute_a0() {
 fn c17_execute_a2() {
     c17_execute(2)
 }
+
+// HARNESS props=C06,C17 tier=quick profile=ops shape="constructor"
+#[kani::proof]
+#[kani::unwind(68)]
+fn c17_constructor() {
+    let env = Env::default();
+    let owner = any::address(4);
+    model::with_contract(&ops(), || AxelarOperators::__constructor(env.clone(), owner.clone()));
+    let o = model::with_contract(&ops(), || AxelarOperators::owner(&env));
+    let probe = any::address(4);
+    kani::assert(o == owner, "VERIF:C06:construction installs exactly the given owner");
+    kani::assert(!member(&probe), "VERIF:C17:a new operators contract has no operators");
+    kani::cover!(true, "VERIF:reach:constructed");
+}
